@@ -547,12 +547,14 @@ func expandHelperNilChecks(paths [][]Lit, depth int) ([][]Lit, bool) {
 			}
 			cur = next
 			if len(cur) > maxFlatPaths {
-				return paths, false
+				// too many combinations: the paths are handed on as they are (less is known about what the helpers
+				// tested, nothing wrong is claimed)
+				return paths, true
 			}
 		}
 		out = append(out, cur...)
 		if len(out) > maxFlatPaths {
-			return paths, false
+			return paths, true
 		}
 	}
 	return out, okAll
